@@ -84,3 +84,36 @@ def registry_digest():
     walk(A.Address)
     walk(A.Instance)
     return hash(tuple(out))
+
+
+class SpecMap:
+    """Instance-type map of the harness (duck type of DeviceInstanceTypeMapper.get_type): entries are
+    compared with solver-decided equalities, the last matching entry wins."""
+
+    def __init__(self):
+        self.entries = []
+
+    def add_type(self, short_address, instance_number, instance_type):
+        sa = getattr(short_address, "address", short_address)
+        n = getattr(instance_number, "value", instance_number)
+        self.entries.append((sa, n, instance_type))
+
+    def get_type(self, short_address, instance_number):
+        for sa, n, t in reversed(self.entries):
+            if bool(E.and_(E.eq(sa, short_address), E.eq(n, instance_number))):
+                return t
+        return None
+
+
+def event_map(ctx):
+    """A map for decodes where the map is not the subject (C01/C02/C03): the library's own
+    DeviceInstanceTypeMapper with its private dict replaced by one that understands symbolic keys; if the
+    mapper no longer keeps a plain dict in `_mapping` (internals restructured), the harness' own SpecMap -
+    the decoder only needs get_type()."""
+    import dali.device.helpers as helpers
+    m = helpers.DeviceInstanceTypeMapper()
+    if type(getattr(m, "_mapping", None)) is dict:
+        m._mapping = newdict(ctx)
+        return m
+    ctx.note("mapper-internals-changed:SpecMap-used")
+    return SpecMap()
